@@ -78,7 +78,7 @@ def handle_oracle_failures(ctx, ob, recs):
                 ctx.known_hits.append("%s [%s / %s] e.g. %s" % (kf.get("what", ""), kf.get("site"), kf.get("class"), json.dumps(r.get("desc"))[:200]))
             continue
         found += 1
-        if found <= 5:
+        if found <= 40:
             ctx.violation("oracle: %s (site %s, class %s)" % (r["oracle"], r.get("site"), r.get("class")),
                           dict(observer=ob["cmd"], args=ob.get("args", []), desc=r.get("desc"), oracle=r["oracle"],
                                site=r.get("site"), cls=r.get("class"), obs=r.get("obs")))
